@@ -16,6 +16,8 @@ Inductive ekey_arg := GInt (k : Z) | GFloat (x : float) | GEpochs (ea : eargs).
 Inductive action :=
 | ATIndex (self : tarr) (t : data) (tol : option data) (md : mode)
 | ATAt (self : tarr) (t : data) (tol : option data)
+| ATGet (self : tarr) (k : Z)                                 (* self[k], integer key of any integer type *)
+| AUGet (ax : uaxis) (k : Z)
 | ATSlice (self : tarr) (ea : eargs)
 | ATDuring (self : tarr) (ea : eargs)
 | AUWf (ax : uaxis)
@@ -58,6 +60,8 @@ Definition model_outcome (a : action) : outcome :=
   match a with
   | ATIndex self t tol md => of_x (index_at self t tol md) OIdx
   | ATAt self t tol => of_x (tarr_at self t tol) (fun r => OTimes (payload r) (tunit r) (scalar r))
+  | ATGet self k => of_x (tarr_getint self k) (fun r => OTimes (payload r) (tunit r) (scalar r))
+  | AUGet ax k => of_x (uaxis_getint ax k) (fun r => OTimes (payload r) (tunit r) (scalar r))
   | ATSlice self ea => with_epochs ea (fun e => of_x (tslice_during self e) (fun s => OSliceN (fst s) (snd s)))
   | ATDuring self ea => with_epochs ea (fun e => of_x (tarr_during self e)
                                                      (fun r => OTimes (payload r) (tunit r) (scalar r)))
